@@ -149,8 +149,9 @@ class Rotate(Domain):
         original_points = self.domain.sample_random_uniform(
             n=n, d=d, params=params, device=device
         ).as_tensor
-        n = int(len(original_points) / (len(params) + 1))
-        _, params = self._repeat_params(n + 1, params)  # round up n
+        # every parameter row got the same number of points, in row-major order
+        n = len(original_points) // max(len(params), 1)
+        _, params = self._repeat_params(n, params)
         rotated_points = self._rotate_points(params, original_points)
         return Points(rotated_points, self.space)
 
